@@ -109,6 +109,12 @@ def getRange (headHeight : Except Err Nat) (getByHeight : Nat → Except Err Hdr
   let (s, e) ← toHeadersRange lo hi head
   getRangeGo getByHeight s (e + 1 - s) []
 
+/-- `Result<T, StoreError>` as an observable result -/
+def toRes (x : Except Err α) (f : α → Out) : Res :=
+  match x with
+  | .ok a => .ok (f a)
+  | .error e => .err e
+
 /-! ## InMemoryStore -/
 
 structure MemStore where
@@ -286,11 +292,6 @@ def removeHeight (s : MemStore) (height : Nat) : MemStore × Except Err Unit :=
             match expectR (Ranges.insertRelaxed s3.prunedRanges (height, height)) with
             | .error e => (s3, .error e)
             | .ok pr => ({ s3 with prunedRanges := pr }, .ok ())
-
-def toRes (x : Except Err α) (f : α → Out) : Res :=
-  match x with
-  | .ok a => .ok (f a)
-  | .error e => .err e
 
 /-- one call of the `Store` trait on the in-memory store
     (`precheck = false`: `insert` as it was before the C20 fix) -/
@@ -498,11 +499,6 @@ def removeHeightTx (height : Nat) (t : Tables) : Except Err (Tables × Unit) := 
     let sr ← expectR (Ranges.removeRelaxed sampledRanges (height, height))
     let pr ← expectR (Ranges.insertRelaxed prunedRanges (height, height))
     pure (setRanges (setRanges (setRanges t3 .header hr) .sampled sr) .pruned pr, ())
-
-def toRes (x : Except Err α) (f : α → Out) : Res :=
-  match x with
-  | .ok a => .ok (f a)
-  | .error e => .err e
 
 /-- one call of the `Store` trait on the redb store -/
 def step (verify : Hdr → Hdr → Bool) (t : Tables) : Op → Tables × Res
